@@ -136,6 +136,23 @@ func (tr *AllMatchedTSIDs) BulkAdd(rawTagValueToTSIDs map[string]map[uint64]stru
 	return nil
 }
 
+// Keeps the tracked tsids that are in rawTagValueToTSIDs; their group ids stay as they are
+func (tr *AllMatchedTSIDs) BulkIntersect(rawTagValueToTSIDs map[string]map[uint64]struct{}) {
+	for ts := range tr.allTSIDs {
+		shouldKeep := false
+		for _, tsids := range rawTagValueToTSIDs {
+			if _, ok := tsids[ts]; ok {
+				shouldKeep = true
+				break
+			}
+		}
+
+		if !shouldKeep {
+			delete(tr.allTSIDs, ts)
+		}
+	}
+}
+
 // If first time, add all tsids to map
 // Else, intersect with existing tsids
 func (tr *AllMatchedTSIDs) BulkAddTagsOnly(rawTagValueToTSIDs map[string]map[uint64]struct{}, metricName string, tagKey string) error {
